@@ -54,17 +54,19 @@ pub fn show_info(info: &AccountInfo) -> Sexp {
     Sexp::tagged("acct", vec![Sexp::atom(format!("{}:{}:{}", name_of_key(&k), info.is_signer() as u8, info.is_writable() as u8))])
 }
 
+/// `(single,<meta signer>,<meta writable>,<fixed key>,<flag checks of validation in execution order: s/w, - for none>)`
 fn single(sg: bool, wr: bool, fixed: Option<&str>) -> Sexp {
-    Sexp::tagged(
-        "single",
-        vec![Sexp::atom(if sg { "1" } else { "0" }), Sexp::atom(if wr { "1" } else { "0" }), Sexp::atom(fixed.unwrap_or("-"))],
-    )
+    let b = |x: bool| Sexp::atom(if x { "1" } else { "0" });
+    Sexp::tagged("single", vec![b(sg), b(wr), Sexp::atom(fixed.unwrap_or("-")), Sexp::atom("-")])
 }
 
-fn set_flag(shape: Sexp, idx: usize) -> Sexp {
+/// wrap a single shape in a checking wrapper: the meta flag is set, the check runs after the inner ones
+fn wrap(shape: Sexp, idx: usize, check: char) -> Sexp {
     match shape {
-        Sexp::List(mut v) if v.len() == 4 && v[0].as_atom() == Some("single") => {
+        Sexp::List(mut v) if v.len() == 5 && v[0].as_atom() == Some("single") => {
             v[idx] = Sexp::atom("1");
+            let cs = v[4].as_atom().unwrap().trim_start_matches('-').to_string();
+            v[4] = Sexp::atom(format!("{cs}{check}"));
             Sexp::List(v)
         }
         other => panic!("not a single shape: {other}"),
@@ -122,7 +124,7 @@ where
 {
     type Client = Pubkey;
     fn shape() -> Sexp {
-        set_flag(T::shape(), 1)
+        wrap(T::shape(), 1, 's')
     }
     fn client(v: &Sexp) -> Option<Pubkey> {
         key_client(v)
@@ -141,7 +143,48 @@ where
 {
     type Client = Pubkey;
     fn shape() -> Sexp {
-        set_flag(T::shape(), 2)
+        wrap(T::shape(), 2, 'w')
+    }
+    fn client(v: &Sexp) -> Option<Pubkey> {
+        key_client(v)
+    }
+    fn show(&self) -> Sexp {
+        show_info(self.account_info())
+    }
+    fn static_metas(out: &mut Vec<(bool, bool)>) {
+        push_meta::<Self>(out)
+    }
+}
+
+/// `MaybeSigner<false, T>` is a pass-through: meta `signer = false || T::meta().signer` (before the /repo fix
+/// it was `signer: false`, forgetting an inner `Signer` whose validation still ran — C14 finding
+/// `single_set_meta_override_drops_inner_requirement`).
+impl<T: Probe + SingleAccountSet> Probe for MaybeSigner<false, T>
+where
+    Self: SingleAccountSet,
+{
+    type Client = Pubkey;
+    fn shape() -> Sexp {
+        T::shape()
+    }
+    fn client(v: &Sexp) -> Option<Pubkey> {
+        key_client(v)
+    }
+    fn show(&self) -> Sexp {
+        show_info(self.account_info())
+    }
+    fn static_metas(out: &mut Vec<(bool, bool)>) {
+        push_meta::<Self>(out)
+    }
+}
+
+impl<T: Probe + SingleAccountSet> Probe for MaybeMut<false, T>
+where
+    Self: SingleAccountSet,
+{
+    type Client = Pubkey;
+    fn shape() -> Sexp {
+        T::shape()
     }
     fn client(v: &Sexp) -> Option<Pubkey> {
         key_client(v)
